@@ -20,7 +20,8 @@ ID = "C14"
 LEVEL = "exploration"
 RULE = ("subset: universe member x decoration (individuals+parents, populations, sites, mutations, "
         "unique metadata) x every ordered list of distinct nodes x reorder_populations x "
-        "remove_unreferenced; non-trivial = the list is not the identity and the member has >=1 edge. "
+        "remove_unreferenced (entry point TreeSequence/TableCollection alternating), plus canonicalise of "
+        "every full permutation; non-trivial = the list is not the identity and the member has >=1 edge. "
         "union: member x decoration x every assignment of nodes to {self only, other only, both} x node "
         "orders x (reorder_populations, add_populations) x check_shared_equality; non-trivial = other "
         "contributes >=1 new node and the member has >=1 edge. perturbation: member x cover x every "
@@ -624,9 +625,9 @@ def evals_per_ctx(kind, N, G, cfg):
             f *= k
         return nlists(N) * len(cfg["opts"]) + 2 + f
     if kind.startswith("uni"):
-        return 3 ** N * len(cfg["orders"]) * len(cfg["modes"]) * len(cfg["checks"])
-    # perturbation: about 12 changes per node row + individuals/populations + edges/sites/mutations
-    return 3 ** N * len(cfg["yorders"]) * (25 + 14 * N + 8 * N * G)
+        return 3 ** N * len(cfg["orders"]) * len(cfg["modes"]) * len(cfg["checks"]) + 2
+    # perturbation: changes per node row + individuals/populations + edges/sites/mutations (calibrated)
+    return 3 ** N * len(cfg["yorders"]) * (12 + 7 * N + 4 * N * G)
 
 
 def _split(specs, target, kind, b, flags, **cfg):
@@ -703,7 +704,7 @@ def bounds(tier):
 def shards(tier, seed):
     specs = []
     quick = tier == "quick"
-    T = 2.0 if quick else 18.0
+    T = 2.0 if quick else 20.0
     full = dict(modes=MODES3, checks=[True, False])
     dflt = dict(orders=ORD1, modes=MODES3[:1], checks=[True])
     if quick:
